@@ -1377,4 +1377,178 @@ Proof.
   rewrite (ctx_preedit_ok (st_ctx s) H F). cbn. rewrite andb_false_r. reflexivity.
 Qed.
 
+(** ---- Editor ---- *)
+Lemma ed_revert_last_edit_good s : sgood s -> sgood (ed_revert_last_edit cfg translate s).
+Proof.
+  intros H. unfold ed_revert_last_edit. apply or_else_good.
+  - apply on_ctx_b_good; [exact H | intros; apply reopen_previous_selection_good; assumption].
+  - intros s1 H1.
+    pose proof (on_ctx_b_good s1 (fun c => pop_input cfg translate c 1) H1 (fun c Hc => pop_input_good c 1 Hc)) as H2.
+    destruct (on_ctx_b s1 (fun c => pop_input cfg translate c 1)) as [s2 ok]. cbn [fst] in H2.
+    destruct ok; [|exact H2]. apply on_ctx_b_good; [exact H2 | intros; apply reopen_previous_segment_good; assumption].
+Qed.
+
+Lemma run_editor_action_good s a : sgood s -> sgood (fst (run_editor_action cfg translate s a)).
+Proof.
+  intros H. destruct a; cbn [run_editor_action fst]; try exact H.
+  - apply or_else_good; [apply confirm_current_selection_good, H | intros; apply commit_good; assumption].
+  - apply or_else_good; [apply on_ctx_b_good; [exact H | intros; apply reopen_previous_segment_good; assumption]
+                        | intros; apply confirm_current_selection_good; assumption].
+  - destruct (ctx_selected_cand (st_ctx s)) as [cd|]; [|exact H]. destruct (c_comment cd); [exact H|]. cbn [fst].
+    apply on_ctx_good; [apply sgood_sink, H | intros; apply clear_good; assumption].
+  - apply commit_good. apply on_ctx_good; [exact H | intros; apply clear_non_confirmed_good; assumption].
+  - pose proof (comp_script_text_ok (st_ctx s) (proj1 H) (proj2 H)) as Hok.
+    destruct (comp_script_text (cx_comp (st_ctx s))) as [t ok]. cbn [snd] in Hok. subst ok. cbn [fst].
+    apply on_ctx_good; [|intros; apply clear_good; assumption]. apply sgood_sink. exact H.
+  - pose proof (confirm_current_selection_good s H) as H1.
+    destruct (confirm_current_selection cfg translate s) as [s1 ok]. cbn [fst] in H1.
+    destruct (negb ok || negb (has_menu (st_ctx s1))); cbn [fst]; [apply commit_good|]; exact H1.
+  - apply ed_revert_last_edit_good, H.
+  - apply or_else_good; [apply or_else_good|].
+    + apply on_ctx_b_good; [exact H | intros; apply reopen_previous_segment_good; assumption].
+    + intros; apply on_ctx_b_good; [assumption | intros; apply reopen_previous_selection_good; assumption].
+    + intros; apply on_ctx_b_good; [assumption | intros; apply pop_input_good; assumption].
+  - apply ed_revert_last_edit_good, H.
+  - apply delete_current_selection_good, H.
+  - apply on_ctx_good; [exact H | intros; apply delete_input_good; assumption].
+  - pose proof (on_ctx_b_good s (clear_previous_segment cfg translate) H (fun c Hc => clear_previous_segment_good c Hc)) as H1.
+    destruct (on_ctx_b s (clear_previous_segment cfg translate)) as [s1 ok]. cbn [fst] in H1.
+    destruct ok; cbn [fst]; [exact H1|]. apply on_ctx_good; [exact H1 | intros; apply clear_good; assumption].
+Qed.
+
+Lemma editor_process_good s k : sgood s -> sgood (fst (editor_process cfg translate s k)).
+Proof.
+  intros H. unfold editor_process. destruct (k_release k); [exact H|].
+  assert (H1 : sgood (fst (if is_composing (st_ctx s)
+                           then kbp_process (run_editor_action cfg translate) (editor_keymap cfg) true s k
+                           else (s, PNoop)))).
+  { destruct (is_composing (st_ctx s)); [|exact H].
+    apply kbp_process_good; [intros; apply run_editor_action_good; assumption | exact H]. }
+  destruct (if is_composing (st_ctx s) then _ else _) as [s1 r]. cbn [fst] in H1.
+  destruct (negb (presult_is_noop r)); [exact H1|].
+  match goal with |- sgood (fst (if ?b then _ else _)) => destruct b end; [|exact H1].
+  destruct (editor_char_handler cfg); cbn [fst]; try exact H1.
+  - apply commit_good, H1.
+  - apply on_ctx_good; [exact H1|]. intros c Hc. apply begin_editing_good, push_input_good, Hc.
+Qed.
+
+Lemma shape_process_good s k : sgood s -> sgood (fst (shape_process s k)).
+Proof.
+  intros H. unfold shape_process.
+  repeat match goal with |- sgood (fst (if ?b then _ else _)) => destruct b; [exact H|] end. exact H.
+Qed.
+
+Lemma process_key_good s k : sgood s -> sgood (fst (process_key cfg translate s k)).
+Proof.
+  intros H. unfold process_key, processors. cbn [run_processors].
+  pose proof (speller_process_good s k H) as H1.
+  destruct (speller_process cfg translate s k) as [s1 r1]. cbn [fst] in H1. destruct r1; cbn [fst]; try exact H1;
+    try (pose proof (shape_process_good s1 k H1) as Hs; destruct (shape_process s1 k) as [sx rx]; destruct rx; exact Hs).
+  pose proof (selector_process_good s1 k H1) as H2.
+  destruct (selector_process cfg translate s1 k) as [s2 r2]. cbn [fst] in H2. destruct r2; cbn [fst]; try exact H2;
+    try (pose proof (shape_process_good s2 k H2) as Hs; destruct (shape_process s2 k) as [sx rx]; destruct rx; exact Hs).
+  pose proof (navigator_process_good s2 k H2) as H3.
+  destruct (navigator_process cfg translate s2 k) as [s3 r3]. cbn [fst] in H3. destruct r3; cbn [fst]; try exact H3;
+    try (pose proof (shape_process_good s3 k H3) as Hs; destruct (shape_process s3 k) as [sx rx]; destruct rx; exact Hs).
+  pose proof (editor_process_good s3 k H3) as H4.
+  destruct (editor_process cfg translate s3 k) as [s4 r4]. cbn [fst] in H4. destruct r4; cbn [fst]; try exact H4;
+    try (pose proof (shape_process_good s4 k H4) as Hs; destruct (shape_process s4 k) as [sx rx]; destruct rx; exact Hs).
+Qed.
+
+(** ---- the API layer ---- *)
+Lemma on_current_page_good s i verb :
+  (forall s n, sgood s -> sgood (fst (verb s n))) -> sgood s -> sgood (fst (on_current_page cfg s i verb)).
+Proof.
+  intros Hv H. unfold on_current_page. destruct (negb (has_menu (st_ctx s))); [exact H|].
+  destruct (size_of_int (cf_page_size cfg) <=? i)%N; [exact H|].
+  destruct (sg_segs (cx_comp (st_ctx s))); [exact H | apply Hv, H].
+Qed.
+
+Lemma do_highlight_good s i : sgood s -> sgood (fst (do_highlight cfg translate s i)).
+Proof.
+  intros H. unfold do_highlight. pose proof (highlight_good (st_ctx s) i H) as H1.
+  destruct (highlight cfg translate (st_ctx s) i). exact H1.
+Qed.
+
+Lemma change_page_good s b : sgood s -> sgood (fst (change_page cfg translate s b)).
+Proof.
+  intros (H & F). unfold change_page. destruct (negb (has_menu (st_ctx s))); [split; assumption|].
+  destruct (sg_segs (cx_comp (st_ctx s))) as [|g r] eqn:E; [split; assumption|].
+  apply do_highlight_good. destruct (back_of_fit _ g r F E) as (Hg & Hc).
+  assert (Hsi : seg_inv cfg MPf (seg_with_tags g (tag_insert TPaging (s_tags g)))) by (wf seg_inv_tags; wf back_inv).
+  split.
+  - apply (set_back_cinv _ g r _ H E Hsi); reflexivity.
+  - cbn [st_ctx st_with_ctx]. apply (fit_set_back _ g r _ F E); [apply sfit_tags_insert; [discriminate | exact Hg] | exact Hc].
+Qed.
+
+Lemma exec_good s o : sgood s -> sgood (fst (exec cfg translate s o)).
+Proof.
+  intros H. destruct o; cbn [exec].
+  - pose proof (process_key_good s (mkKey code mask) H) as H1. destruct (process_key cfg translate s _). exact H1.
+  - apply set_input_good, H.
+  - apply set_caret_pos_good, H.
+  - pose proof (select_good s i H) as H1. destruct (select cfg translate s i). exact H1.
+  - pose proof (on_current_page_good s i (select cfg translate) (fun s n Hs => select_good s n Hs) H) as H1.
+    destruct (on_current_page cfg s i _). exact H1.
+  - pose proof (do_highlight_good s i H) as H1. destruct (do_highlight cfg translate s i). exact H1.
+  - pose proof (on_current_page_good s i (do_highlight cfg translate) (fun s n Hs => do_highlight_good s n Hs) H) as H1.
+    destruct (on_current_page cfg s i _). exact H1.
+  - pose proof (delete_candidate_good s i H) as H1. destruct (delete_candidate cfg s i). exact H1.
+  - pose proof (on_current_page_good s i (delete_candidate cfg) (fun s n Hs => delete_candidate_good s n Hs) H) as H1.
+    destruct (on_current_page cfg s i _). exact H1.
+  - pose proof (change_page_good s backward H) as H1. destruct (change_page cfg translate s backward). exact H1.
+  - apply commit_good, H.
+  - apply clear_good, H.
+  - destruct (st_commit s); exact H.
+  - exact H.
+  - exact H.
+  - exact H.
+  - exact H.
+  - apply set_option_good, H.
+Qed.
+
+Lemma init_good : sgood (init_state cfg).
+Proof.
+  split; [wf init_inv|]. split; [reflexivity|]. split; [constructor|]. split; [exact I | reflexivity].
+Qed.
+
+Lemma step_good s o :
+  sgood s -> sgood (fst (step cfg translate s o)) /\ exists r v, snd (step cfg translate s o) = Obs r v.
+Proof.
+  intros H. unfold step. assert (He : cx_err (st_ctx s) = None) by apply H. rewrite He.
+  pose proof (exec_good s o H) as H1. destruct (exec cfg translate s o) as [s1 r]. cbn [fst] in H1.
+  pose proof (view_no_err s1 H1) as Hv. destruct (view_of cfg s1) as [v ve]. cbn [snd] in Hv. subst ve.
+  assert (He1 : cx_err (st_ctx s1) = None) by apply H1. rewrite He1. cbn [fst snd]. split; [exact H1 | eauto].
+Qed.
+
+Lemma run_from_total ops : forall s, sgood s ->
+  Forall (fun ob => exists r v, ob = Obs r v) (snd (run_from cfg translate s ops)).
+Proof.
+  induction ops as [|o r IH]; intros s H; [constructor|]. cbn [run_from].
+  destruct (step_good s o H) as (Hi & Hob). destruct (step cfg translate s o) as [s1 ob]. cbn [fst snd] in *.
+  specialize (IH s1 Hi). destruct (run_from cfg translate s1 r) as [s2 obs]. cbn [snd] in *. constructor; assumption.
+Qed.
+
+Theorem total_gen ops : Forall (fun ob => exists r v, ob = Obs r v) (snd (run cfg translate ops)).
+Proof. apply run_from_total, init_good. Qed.
+
 End Full.
+
+(** ---- the theorem ---- *)
+(** candidates lie inside the segment they were made for and cover at least one byte of it *)
+Definition cands_fit (translate : bytes -> seginfo -> list cand) : Prop :=
+  forall i s c, In c (translate i s) -> si_start s < c_end c /\ c_end c <= si_start s + length i.
+
+Definition is_obs (o : obs) : bool := match o with ObsCrash _ => false | Obs _ _ => true end.
+
+Theorem core_total (cfg : config) (translate : bytes -> seginfo -> list cand) :
+  (1 <= cf_page_size cfg)%Z ->
+  (forall i s, (Z.of_nat (length (translate i s)) + cf_page_size cfg < 2147483648)%Z) ->
+  cf_del_checked cfg = true ->
+  cands_fit translate ->
+  forall ops, forallb is_obs (snd (run cfg translate ops)) = true.
+Proof.
+  intros Hps Hlen Hdel Hfit ops. apply forallb_forall. intros o Ho.
+  pose proof (total_gen cfg translate Hps Hlen Hdel Hfit ops) as H. rewrite Forall_forall in H.
+  destruct (H o Ho) as (r & v & ->). reflexivity.
+Qed.
